@@ -41,7 +41,7 @@ payloads = st.one_of(
 ann_ids = st.one_of(st.sampled_from(["CORR", "STRM", "BLBI", "\0\0\0\0", "    ", "a\0b\x7f", "HMAC", "XXXX"]),
                     st.text(alphabet=st.characters(min_codepoint=0, max_codepoint=127), min_size=4, max_size=4))
 ann_vals = st.tuples(st.one_of(st.just(b""), st.binary(max_size=30), st.binary(min_size=100, max_size=200)),
-                     st.sampled_from(["bytes", "bytearray", "memoryview"]))
+                     st.sampled_from(["bytes", "bytearray", "memoryview", "memoryview:H", "memoryview:I", "memoryview:2d", "memoryview:array"]))
 annotations = st.lists(st.tuples(ann_ids, ann_vals), max_size=5, unique_by=lambda t: t[0]).map(
     lambda l: [[k, v, t] for k, (v, t) in l])
 corr_ids = st.one_of(st.none(), st.just(b"\0" * 16), st.binary(min_size=16, max_size=16))
@@ -91,6 +91,17 @@ def _annval(v, t):
         return bytearray(v)
     if t == "memoryview":
         return memoryview(v)
+    if t.startswith("memoryview:"):
+        # a view whose items are wider than one byte (len() of it counts items, its content is all of its bytes)
+        v = bytes(v) + b"\0" * (-len(v) % 4)
+        if t == "memoryview:H":
+            return memoryview(v).cast("H")
+        if t == "memoryview:I":
+            return memoryview(v).cast("I")
+        if t == "memoryview:2d":
+            return memoryview(v).cast("B", (len(v) // 2, 2)) if len(v) else memoryview(v)
+        import array
+        return memoryview(array.array("I", v))
     return bytes(v)
 
 
@@ -155,7 +166,7 @@ def _compare(m, dec, where):
     if bytes(dec.data) != m["payload"]:
         out.append("payload differs (%d vs %d bytes)" % (len(dec.data), len(m["payload"])))
     got = {k: bytes(v) for k, v in dec.annotations.items()}
-    want = {k: bytes(v) for k, v, _t in m["ann"]}
+    want = {k: bytes(_annval(v, t)) for k, v, t in m["ann"]}      # (all the BYTES of the value, whatever the width of its items)
     if got != want:
         out.append("annotations differ: %r vs %r" % (got, want))
     return ["%s: %s" % (where, o) for o in out]
@@ -189,7 +200,7 @@ def run_rt(case):
             viol("rt:encoded-fields-differ", "reference parser reads other header fields than were encoded: %r" % ({k: r[k] for k in ("type", "seq", "ser", "flags")},))
         if r["data"] != m["payload"]:
             viol("rt:encoded-payload-differs", "reference parser reads another payload")
-        if [(k, bytes(v)) for k, v in r["annotations"]] != [(k, bytes(v)) for k, v, _t in m["ann"]]:
+        if [(k, bytes(v)) for k, v in r["annotations"]] != [(k, bytes(_annval(v, t))) for k, v, t in m["ann"]]:
             viol("rt:encoded-annotations-differ", "reference parser reads other annotations: %r" % (r["annotations"],))
         if bool(r["flags"] & wire.F_CORR_ID) != (m["corr"] is not None) and not m["flags"] & wire.F_CORR_ID:
             viol("rt:corr-flag", "correlation flag %s but correlation id %s" % (bool(r["flags"] & wire.F_CORR_ID), m["corr"]))
